@@ -305,3 +305,52 @@ package engine
 //@   requires typing: rvIface(v).typ == dyn("go/token.Pos")
 //@   ensures [C01,C02] positions-always-compared-by-validity: m == boxed(mk("github.com/uber-go/gopatch/internal/engine.PosMatcher", c.fset, rvIface(v).val))
 //@   assigns nothing
+
+// ---- metavariable table (C02, C19) and identifiers (C08) -----------------------------------------------
+
+//@ func (m *Meta) LookupVar(name) (t)
+//@   nilrecv
+//@   ensures [C02] no-table-no-metavariables: m == nil ==> t == 0
+//@   ensures [C02] declared-kind: m != nil ==> t == ite(has(m.Vars, name), m.Vars[name], 0)
+//@   assigns nothing
+
+//@ func (c *compiler) errf(pos, msg, args)
+//@   assigns c.errors, elems(c.errors)
+//@   ensures [C19] one-diagnostic-appended: len(c.errors) == old(len(c.errors)) + 1
+//@   ensures c.errors.arr == old(c.errors.arr) || fresh(c.errors.arr)
+
+// Declarations are processed in order: an unknown type and a duplicate name are rejected with a
+// diagnostic at the offending identifier, `_` declares nothing, the first declaration of a name wins.
+//@ func (c *compiler) compileMeta(m) (meta)
+//@   requires m != nil
+//@   requires typing: forall i int {m.Vars[i]} :: 0 <= i && i < len(m.Vars) ==> m.Vars[i] != nil && m.Vars[i].Type != nil && forall j int {m.Vars[i].Names[j]} :: 0 <= j && j < len(m.Vars[i].Names) ==> m.Vars[i].Names[j] != nil
+//@   at call (*engine.compiler).errf#0 assert [C19] unknown-type-reported-at-the-type-name: arg1 == decl.Type.NamePos
+//@   at call (*engine.compiler).errf#1 assert [C19] duplicate-reported-at-the-second-name: arg1 == name.NamePos && has(declPos, name.Name)
+//@   at call (*engine.compiler).errf set metaErrors = metaErrors + 1
+//@   assigns c.errors, elems(c.errors), metaErrors
+//@   ensures meta != nil && meta.Vars != nil
+//@   ensures [C02] only-the-two-kinds: forall k string {has(meta.Vars, k)} :: has(meta.Vars, k) ==> (meta.Vars[k] == 1 || meta.Vars[k] == 2)
+//@   ensures [C02] underscore-declares-nothing: !has(meta.Vars, "_")
+//@   ensures [C19] rejected-declarations-are-reported: len(c.errors) == old(len(c.errors)) + (metaErrors - old(metaErrors))
+//@   loop 0
+//@     invariant len(c.errors) == old(len(c.errors)) + (metaErrors - old(metaErrors)) && metaErrors >= old(metaErrors)
+//@     invariant c.errors.arr == old(c.errors.arr) || fresh(c.errors.arr)
+//@     invariant forall k string {has(vars, k)} :: has(vars, k) ==> (vars[k] == 1 || vars[k] == 2) && k != "_" && has(declPos, k)
+//@   loop 1
+//@     invariant len(c.errors) == old(len(c.errors)) + (metaErrors - old(metaErrors)) && metaErrors >= old(metaErrors)
+//@     invariant c.errors.arr == old(c.errors.arr) || fresh(c.errors.arr)
+//@     invariant forall k string {has(vars, k)} :: has(vars, k) ==> (vars[k] == 1 || vars[k] == 2) && k != "_" && has(declPos, k)
+//@     invariant t == 1 || t == 2
+
+// An identifier of the '-' pattern: a declared metavariable becomes a MetavarMatcher of its kind,
+// anything else (including an absent identifier) is matched as ordinary code.
+//@ func (c *matcherCompiler) compileGeneric(v) (m)
+//@   trusted compile-side summary (recursive reflection walk over the pattern); see DESIGN: Level 2
+//@   assigns c.dots, elems(c.dots)
+//@   ensures m != nil
+
+//@ func (c *matcherCompiler) compileIdent(v) (m)
+//@   requires typing: rvIface(v).typ == dyn("*go/ast.Ident")
+//@   requires typing: global("github.com/uber-go/gopatch/internal/engine.nilMatcher") != nil
+//@   assigns c.dots, elems(c.dots)
+//@   ensures m != nil
